@@ -451,6 +451,8 @@ def write_evidence(mod, tier, seed, merged, wall, replayed, nshards):
         'violations': len(merged['violations']),
     }
     d = os.path.join(HERE, 'evidence')
+    if os.path.realpath(REPO) != '/repo':      # mutation campaign: never overwrite the real evidence
+        d = os.path.join(HERE, 'out', 'mutant-evidence')
     os.makedirs(d, exist_ok=True)
     path = os.path.join(d, mod.PROPERTY_ID + '.json')
     tmp = path + '.tmp'
